@@ -139,13 +139,13 @@ class Harness:
 TIER_CPU = {"quick": 16 * 300.0, "thorough": 16 * 1500.0}
 
 
-def run_pooled(harnesses: list, tier: str, seed: int, jobs: int) -> list:
+def run_pooled(harnesses: list, tier: str, seed: int, jobs: int, cpu_total: float | None = None) -> list:
     """All shards of all E1 harnesses share one process pool (longest budgets first)."""
     t0 = time.perf_counter()
     tasks = []
     for h in harnesses:
         tasks.extend(h.tasks(tier, seed))
-    cap = max(5.0, float(os.environ.get("VF_CPU_TOTAL", TIER_CPU[tier])) / max(1, len(tasks)))
+    cap = max(5.0, float(os.environ.get("VF_CPU_TOTAL", cpu_total or TIER_CPU[tier])) / max(1, len(tasks)))
     for h in harnesses:
         h._budget_cap = cap
     tasks.sort(key=lambda t: -t[0].budget(tier))
@@ -210,14 +210,14 @@ def load_known() -> dict:
 
 
 def check_property(pid: str, harnesses: list[Harness], tier: str, seed: int, jobs: int, level: str = "other",
-                   explanation: str = "") -> int:
+                   explanation: str = "", cpu_total: float | None = None) -> int:
     t0 = time.perf_counter()
     known = [k for k in load_known().get("findings", []) if k["property"] == pid]
     results: list[HarnessResult] = []
     pooled = [h for h in harnesses if h.custom_run is None]
     try:
         if pooled:
-            results.extend(run_pooled(pooled, tier, seed, jobs))
+            results.extend(run_pooled(pooled, tier, seed, jobs, cpu_total))
     except BaseException as e:  # noqa
         hr = HarnessResult(name="+".join(h.name for h in pooled), engine="E1-crosshair")
         hr.crashes.append({"fatal": f"{type(e).__name__}: {e}", "trace": traceback.format_exc()[-3000:]})
